@@ -484,7 +484,8 @@ impl BitMachine {
 
             Ok(value)
         } else {
-            Ok(Value::unit())
+            // A type of width zero (1, 1 × 1, ...) has exactly one value
+            Ok(Value::zero(&program.arrow().target))
         }
     }
 
